@@ -86,6 +86,34 @@ package core
 //@     invariant[flush.count@C01] c.wcount == gw(c) + gn(c)
 //@     invariant[flush.order@C01] forall i int :: 0 <= i && i < gn(c) ==> c.wlog[gw(c) + i] == atlabel(G, mqm(cl(c), i).RspBody)
 
+// eventloop.open (C04, C18): the handler decides admission; what it returns is the first thing handed to the socket
+// of the new connection, and a refused client is closed without any reply.
+//@ func conn.open
+//@   flags trusted
+//@   modifies c.wcount, c.wlog, elastic.Buffer.pending, elastic.RingBuffer.rb, ring.Buffer.buf, ring.Buffer.size, ring.Buffer.r, ring.Buffer.w, ring.Buffer.isEmpty
+//@   ensures result == nil ==> c.wcount == old(c.wcount) + 1 && c.wlog[old(c.wcount)] == buf
+//@   ensures result != nil ==> c.wcount == old(c.wcount)
+//@   ensures forall k int :: k < old(c.wcount) ==> c.wlog[k] == old(c.wlog[k])
+
+//@ func eventloop.addCConn
+//@   flags trusted pure
+//@ func eventloop.addSConn
+//@   flags trusted pure
+
+//@ func eventloop.handleAction
+//@   props C18
+//@   requires c != nil
+//@   ensures[close@C18] action == Close ==> !c.opened
+//@   ensures[none] action == None ==> (result == nil && c.opened == old(c.opened) && c.wcount == old(c.wcount))
+
+//@ func eventloop.open
+//@   props C04 C18
+//@   requires c != nil && c.loop != nil && el.eventHandler != nil && el.poller != nil && c.outboundBuffer != nil && c.outboundBuffer.pending == 0
+//@   assert[first@C04] at call conn.open#0 :: c.wcount == old(c.wcount) && out != nil
+//@   ensures[refuse@C18] (old(c.connType) == ConnClient && authip.IpMap.enable && !authip.admitted(server.peerhost(c))) ==> (!c.opened && c.wcount == old(c.wcount))
+//@   ensures[admitted@C18] (old(c.connType) == ConnClient && !(authip.IpMap.enable && !authip.admitted(server.peerhost(c)))) ==> (c.opened && result == nil && c.wcount == old(c.wcount))
+//@   ensures[unknown.kind] (old(c.connType) != ConnClient && old(c.connType) != ConnServer) ==> !c.opened
+
 // eventloop.msgTimeout (C16): every expired, not yet answered fragment fails its whole request with the timeout
 // error, once: fragments that are already done when they reach the front of the tree are only removed.
 //@ func conn.AsyncWrite
